@@ -24,6 +24,7 @@ reported only when replay/c04_meta.py reproduces a changed property on a crafted
 from __future__ import annotations
 
 import ast
+import re as _re
 
 from pyvc import loader
 from pyvc.flow import dotted, ground_obligation
@@ -285,10 +286,11 @@ class Interp:
                 return self.inline(fn, {"self": env.get("self", ("param", "self"))}, args, kw, e, method="staticmethod" not in decos)
             recv = self.ev(f.value, env, d + 1)
             a = f.attr
-            if a == "find" and args:
-                return ("find", recv, args[0])
-            if a == "findtext" and args:
-                return ("or-none", ("text", ("find", recv, args[0])))
+            if a in ("find", "findtext") and args:
+                # the prefix map (second positional / `namespaces=`) belongs to the selector: `dc:title` names whatever it binds `dc` to
+                nsmap = args[1] if len(args) > 1 else kw.get("namespaces")
+                node = ("find", recv, args[0]) if nsmap is None else ("find", recv, args[0], nsmap)
+                return node if a == "find" else ("or-none", ("text", node))
             if a in ("strip", "lstrip", "rstrip", "lower", "upper", "title", "casefold") and not args:
                 return (a, recv)
             if a == "get" and args:
@@ -641,6 +643,58 @@ def local_of(tag):
     return tag.split("}")[-1].split(":")[-1]
 
 
+# namespaces the spec table's prefixes stand for (file-format specifications)
+SPEC_NS = {"dc": DC[1:-1], "cp": CP[1:-1], "meta": "urn:oasis:names:tc:opendocument:xmlns:meta:1.0"}
+
+
+def clark(tag, nsmap=None):
+    """Clark name `{uri}local` selected by a ONE-STEP ElementPath selector, or None when the selector is anything else (a path with
+    steps / predicates, a wildcard namespace `{*}local`, a wildcard name, a prefix the map does not bind).  `nsmap`: None = the
+    conventional binding of the prefix (SPEC_NS), else {prefix: uri}."""
+    m = _re.fullmatch(r"(?:\{([^{}*]+)\})?((?:[\w\-][\w.\-]*:)?[\w\-][\w.\-]*)", tag) if isinstance(tag, str) else None
+    if m is None:
+        return None
+    if m.group(1) is not None:
+        return tag if ":" not in m.group(2) else None
+    if ":" in tag:
+        pre, local = tag.split(":", 1)
+        uri = (SPEC_NS if nsmap is None else nsmap).get(pre)
+        return "{%s}%s" % (uri, local) if uri and local and ":" not in local else None
+    if nsmap is not None and nsmap.get(""):
+        return "{%s}%s" % (nsmap[""], tag)          # ElementPath: the "" entry of the map is the default namespace of unprefixed names
+    return tag
+
+
+def selectors_of(term):
+    out = []
+
+    def walk(t):
+        if isinstance(t, tuple):
+            if t[:1] == ("find",) and len(t) >= 3 and t[2][:1] == ("const",):
+                if f"find({t[2][1]!r})" not in out:
+                    out.append(f"find({t[2][1]!r})")
+                return                               # the selector of the node itself, not those of its ancestors
+            for x in t:
+                walk(x)
+    walk(term)
+    return out[:4]
+
+
+def const_nsmap(term):
+    """{prefix: uri} of a resolved prefix map term; None = not resolved (the conventional binding is assumed, as before)."""
+    if isinstance(term, tuple) and term[:1] == ("dict",) and all(k[0] == "const" and isinstance(k[1], str) and v[0] == "const" and isinstance(v[1], str)
+                                                                  for k, v in term[1]):
+        return {k[1]: v[1] for k, v in term[1]}
+    return None
+
+
+def same_node(selector, nsmap_term, tag):
+    """Does find(<selector>, <map>) select the property's node <tag>, whatever else the parent contains?"""
+    want = clark(tag)
+    got = clark(selector, const_nsmap(nsmap_term) if nsmap_term is not None else None)
+    return want is not None and got == want
+
+
 def node_text_of(core, kind, tag):
     """Does the provenance `core` denote the text / value of the property's node?  -> True | False | None (not understood)."""
     if kind == "etree":
@@ -661,10 +715,9 @@ def node_text_of(core, kind, tag):
         for f in finds:
             if f[0] != "find" or f[2][0] != "const" or not isinstance(f[2][1], str):
                 return None if f[0] in ("param", "?", "name", "item", "elem", "call") or (f[0] == "find" and f[2][0] != "const") else False
-            t = f[2][1]
-            same = t == tag or (local_of(t) == local_of(tag) and (t.startswith(DC) or t.startswith("dc:") or t.startswith("{*}"))
-                                and (tag.startswith(DC) or tag.startswith("dc:")))
-            ok = ok and same
+            # the selector has to name the node: same local name AND same namespace.  `{*}title` / `.//dc:title` / a prefix bound to
+            # another URI select other nodes too (a vendor <series:title> before <dc:title>) -> not the text of the property's node
+            ok = ok and (f[2][1] == tag and len(f) == 3 or same_node(f[2][1], f[3] if len(f) > 3 else None, tag))
         return ok
     if kind == "props":
         if core[0] == "attr" and core[2] == tag and core[1][0] == "attr" and core[1][2] == "properties":
@@ -684,7 +737,8 @@ def judge_etree(store, kind, tag, allowed, other_tags, interp):
         if r is None:
             verdicts.append(("unresolved", f"value {short_term(v)} not understood"))
         elif r is False:
-            verdicts.append(("bad", f"value is {short_term(v)}, not the text of <{tag}>"))
+            sels = selectors_of(core)
+            verdicts.append(("bad", f"value is {short_term(v)}" + (f" selected by {', '.join(sels)}" if sels else "") + f", not the text of <{tag}> alone"))
         elif changed:
             verdicts.append(("bad", f"the text of <{tag}> is transformed: {short_term(v)}"))
         else:
